@@ -1,0 +1,203 @@
+//go:build verif
+
+// Machine-checked contracts for package decimal128, read by the verification
+// condition generator in /verif (cmd/govc). This file contains no executable
+// code; it is only compiled with the build tag "verif".
+//
+// Syntax: lines starting with "//@". A block starts with "func <name>" (or
+// "lemma <name>") and contains clauses (requires, ensures, loop N: invariant,
+// ...). Lines that do not start with a clause keyword continue the previous
+// clause. "#" starts a comment line.
+package decimal128
+
+// ---------------------------------------------------------------------------
+// int.go: multi-word unsigned arithmetic
+// ---------------------------------------------------------------------------
+
+//@ func uint128.div10
+//@ returns (q, r)
+//@ ensures 10*u128(q) + r == u128(n) && r < 10
+//@ props C20
+
+//@ func uint128.div100
+//@ returns (q, r)
+//@ ensures 100*u128(q) + r == u128(n) && r < 100
+//@ props C20
+
+//@ func uint128.div1000
+//@ returns (q, r)
+//@ ensures 1000*u128(q) + r == u128(n) && r < 1000
+//@ props C20
+
+//@ func uint128.div10000
+//@ returns (q, r)
+//@ ensures 10000*u128(q) + r == u128(n) && r < 10000
+//@ props C20
+
+//@ func uint128.div1e8
+//@ returns (q, r)
+//@ ensures 100000000*u128(q) + r == u128(n) && r < 100000000
+//@ props C20
+
+//@ func uint128.div1e19
+//@ returns (q, r)
+//@ ensures 10000000000000000000*u128(q) + r == u128(n) && r < 10000000000000000000
+//@ props C20
+
+//@ func uint192.div10
+//@ returns (q, r)
+//@ ensures 10*u192(q) + r == u192(n) && r < 10
+//@ props C20
+
+//@ func uint192.div10000
+//@ returns (q, r)
+//@ ensures 10000*u192(q) + r == u192(n) && r < 10000
+//@ props C20
+
+//@ func uint192.div1e8
+//@ returns (q, r)
+//@ ensures 100000000*u192(q) + r == u192(n) && r < 100000000
+//@ props C20
+
+//@ func uint192.div1e19
+//@ returns (q, r)
+//@ ensures 10000000000000000000*u192(q) + r == u192(n) && r < 10000000000000000000
+//@ props C20
+
+//@ func uint256.div10
+//@ returns (q, r)
+//@ ensures 10*u256(q) + r == u256(n) && r < 10
+//@ props C20
+
+//@ func uint256.div10000
+//@ returns (q, r)
+//@ ensures 10000*u256(q) + r == u256(n) && r < 10000
+//@ props C20
+
+//@ func uint256.div1e8
+//@ returns (q, r)
+//@ ensures 100000000*u256(q) + r == u256(n) && r < 100000000
+//@ props C20
+
+//@ func uint256.div1e19
+//@ returns (q, r)
+//@ ensures 10000000000000000000*u256(q) + r == u256(n) && r < 10000000000000000000
+//@ props C20
+
+//@ func uint384.div10
+//@ returns (q, r)
+//@ ensures 10*u384(q) + r == u384(n) && r < 10
+//@ props C20
+
+//@ func uint384.div1e19
+//@ returns (q, r)
+//@ ensures 10000000000000000000*u384(q) + r == u384(n) && r < 10000000000000000000
+//@ props C20
+
+//@ func uint128.add
+//@ returns (s)
+//@ ensures u192(s) == u128(n) + u128(o)
+//@ props C20
+
+//@ func uint192.add
+//@ returns (s)
+//@ ensures u256(s) == u192(n) + u192(o)
+//@ props C20
+
+//@ func uint128.add64
+//@ returns (s)
+//@ ensures u128(n) + o < W*W ==> u128(s) == u128(n) + o
+//@ ensures u128(n) + o >= W*W ==> u128(s) == u128(n) + o - W*W
+//@ props C20
+
+//@ func uint192.add64
+//@ returns (s)
+//@ ensures u192(n) + o < W*W*W ==> u192(s) == u192(n) + o
+//@ ensures u192(n) + o >= W*W*W ==> u192(s) == u192(n) + o - W*W*W
+//@ props C20
+
+//@ func uint128.sub
+//@ returns (d, b)
+//@ ensures b <= 1 && u128(d) == u128(n) - u128(o) + b*W*W
+//@ ensures b == 1 <==> u128(n) < u128(o)
+//@ props C20
+
+//@ func uint128.sub64
+//@ returns (d)
+//@ ensures u128(n) >= o ==> u128(d) == u128(n) - o
+//@ ensures u128(n) < o ==> u128(d) == u128(n) - o + W*W
+//@ props C20
+
+//@ func uint128.twos
+//@ returns (t)
+//@ ensures u128(n) == 0 ==> u128(t) == 0
+//@ ensures u128(n) > 0 ==> u128(t) == W*W - u128(n)
+//@ props C20
+
+//@ func uint128.cmp
+//@ returns (c)
+//@ ensures -1 <= c && c <= 1
+//@ ensures c == 0 <==> u128(n) == u128(o)
+//@ ensures c < 0 <==> u128(n) < u128(o)
+//@ props C20
+
+//@ func uint192.sub
+//@ returns (d, b)
+//@ ensures b <= 1 && u192(d) == u192(n) - u192(o) + b*W*W*W
+//@ ensures b == 1 <==> u192(n) < u192(o)
+//@ props C20
+
+//@ func uint192.sub64
+//@ returns (d)
+//@ ensures u192(n) >= o ==> u192(d) == u192(n) - o
+//@ ensures u192(n) < o ==> u192(d) == u192(n) - o + W*W*W
+//@ props C20
+
+//@ func uint192.twos
+//@ returns (t)
+//@ ensures u192(n) == 0 ==> u192(t) == 0
+//@ ensures u192(n) > 0 ==> u192(t) == W*W*W - u192(n)
+//@ props C20
+
+//@ func uint192.cmp
+//@ returns (c)
+//@ ensures -1 <= c && c <= 1
+//@ ensures c == 0 <==> u192(n) == u192(o)
+//@ ensures c < 0 <==> u192(n) < u192(o)
+//@ props C20
+
+//@ func uint128.mul64
+//@ returns (p)
+//@ ensures u128(n)*o < W*W ==> u128(p) == u128(n)*o
+//@ props C20
+
+//@ func uint128.mul
+//@ returns (p)
+//@ ensures u256(p) == u128(n) * u128(o)
+//@ props C20
+
+//@ func uint128.mul1e38
+//@ returns (p)
+//@ ensures u256(p) == u128(n) * 100000000000000000000000000000000000000
+//@ props C20
+
+//@ func uint192.mul
+//@ returns (p)
+//@ ensures u384(p) == u192(n) * u192(o)
+//@ props C20
+
+//@ func uint192.pow2
+//@ returns (p)
+//@ ensures u384(p) == u192(n) * u192(n)
+//@ props C20
+
+//@ func uint192.mul64
+//@ returns (p)
+//@ ensures u192(n)*o < W*W*W ==> u192(p) == u192(n)*o
+//@ props C20
+
+//@ func uint256.mul64
+//@ returns (p)
+//@ ensures u256(n)*o < W*W*W*W ==> u256(p) == u256(n)*o
+//@ props C20
+
